@@ -88,6 +88,10 @@ func init() {
 	add("C01", "C01.accepted (the accepted receipts of a block are applied in the block's own order, each by the operation of its type, straight in the loop over the receipts — not regrouped in a map: the resulting validator-set, whose order is hashed, is the same on every node; see C10.accepted).", sharedAs(c10accepted, map[string]string{"C10.accepted": "C01.accepted"}))
 	add("C13", "C13.consensusevents (every event of every processed round is recorded as a consensus event, payload or not: the roots of later frames for silent creators come from this record; shared with C03.consensusevents).", as1(consensusEventsRule, "C13.consensusevents"))
 	add("C03", "C03.consensusevents (see C13.consensusevents), C03.index (block numbers are read from the store for every block, not carried in a counter across the rounds of a pass; see C02.index).", as1(consensusEventsRule, "C03.consensusevents"), sharedAs(c02index, map[string]string{"C02.index": "C03.index"}))
+	add("C20", "C20.replyintact (the socket proxy clients return the reply of an RPC as it came: no store into it after the call).", as1(replyIntactRule, "C20.replyintact"))
+	add("C10", "C10.pair (the strongly-see quorum over the witnesses of a round is counted against that round's validator-set; see C01.pair).", sharedAs(c01pair, map[string]string{"C01.pair": "C10.pair"}))
+	add("C16", "C16.store (the in-memory store refuses an event before it caches it; see C07.store).", sharedAs(c07store, map[string]string{"C07.store": "C16.store"}))
+	add("C19", "C19.rr (an event is received in a round only if all its famous witnesses see it AND they are a supermajority; see C01.rr).", sharedAs(c01rr, map[string]string{"C01.rr": "C19.rr"}))
 	add("C01", "C01.mapcut (see C03.mapcut).", as(mapCutRule, "C01.mapcut", consensusFuncs))
 	add("C13", "C13.mapcut (see C03.mapcut, for the functions that build a frame).", as(mapCutRule, "C13.mapcut", frameFuncs))
 }
@@ -381,6 +385,10 @@ func consensusErrRule(p *Prog, r *Report, rule string) {
 	r.Note("%s: %d tested errors of store / hashgraph calls in %d consensus / pass functions of package hashgraph; %d tests of errors the function classifies (IsStore / errors.Is …); %d sites where 'absent' is an answer by design (table absentIsAnAnswer): %s", rule, n, len(fs), nCls, nEx, strings.Join(exempt, ", "))
 }
 
+// errPropStrict: functions whose nil result must mean "done" whatever the kind of error: asking which error it was does
+// not excuse returning nil (addSelfEvent trims the pools after a nil from signAndInsertSelfEvent).
+var errPropStrict = map[string]bool{"signAndInsertSelfEvent": true, "insertEventAndRunConsensus": true}
+
 // errPropFuncs: the obligation of consensusErrRule evaluated on an explicit list of functions. calleeOK selects the
 // calls whose error must propagate; name describes the callee in reports.
 func errPropFuncs(p *Prog, r *Report, rule string, fs []*ssa.Function, calleeOK func(cf *types.Func, sf *ssa.Function) bool, what string) (n, nEx, nCls int, exempt []string) {
@@ -436,7 +444,7 @@ func errPropFuncs(p *Prog, r *Report, rule string, fs []*ssa.Function, calleeOK 
 						}
 					}
 				}
-				if classified {
+				if classified && !errPropStrict[f.Name()] {
 					nCls++
 					continue
 				}
@@ -1206,6 +1214,49 @@ func coreErrRule(p *Prog, r *Report, rule string, names []string, min int) {
 		return cf == nil && sf != nil && inModule(sf) // a local closure (checkPeers, checkEvents)
 	}, "the caller takes the nil result for success")
 	r.Note("%s: %d tested errors of module calls / local closures in %d functions (%d classified by the function)", rule, n, len(fs), nCls)
+	// strict functions: an explicit nil is returned only when every module call made before it returned a nil error (no
+	// branch on the KIND of error turns a failure into a success)
+	for _, f := range fs {
+		if !errPropStrict[f.Name()] {
+			continue
+		}
+		for _, rp := range p.succRets(f, errNil, 0) {
+			if !isNilConst(rp.val) {
+				continue
+			}
+			at := ssa.Instruction(rp.ret)
+			if rp.pred != nil && len(rp.pred.Instrs) > 0 {
+				at = rp.pred.Instrs[len(rp.pred.Instrs)-1]
+			}
+			for _, b := range f.Blocks {
+				for _, in := range b.Instrs {
+					c, isC := in.(*ssa.Call)
+					if !isC || !dominates(c, at) {
+						continue
+					}
+					sf := c.Call.StaticCallee()
+					if sf == nil || !inModule(sf) {
+						continue
+					}
+					res := sf.Signature.Results()
+					if res.Len() == 0 || !isErrorType(res.At(res.Len()-1).Type()) {
+						continue
+					}
+					q := func(l Lit) bool {
+						v, isNil, ok := nilTest(l)
+						if !ok || !isNil {
+							return false
+						}
+						cc, _ := callOf(unwrap(v))
+						return cc == c
+					}
+					g, _ := p.holdsAtRet(rp, []Pred{q}, all(1))
+					r.Check(g, rule, f.Name()+":nil-only-after-"+sf.Name()+"-succeeded", p.ipos(rp.ret), fnName(f), "an explicit nil result only when the call before it returned nil",
+						"nil is returned at "+p.ipos(rp.ret)+" on a path on which "+sf.Name()+" may have failed (the kind of error was looked at, not whether there was one): the caller trims the pools / moves on as if the event had been inserted")
+				}
+			}
+		}
+	}
 }
 
 /* ---------- C10.follows: core.validators follows every recorded set (mutation scan) ---------- */
@@ -1975,5 +2026,67 @@ func consensusEventsRule(p *Prog, r *Report, rule string) {
 	}
 	if n == 0 {
 		r.Fail(rule, "ProcessDecidedRounds:AddConsensusEvent", p.pos(fn.Pos()), fnName(fn), "ProcessDecidedRounds does not call Store.AddConsensusEvent")
+	}
+}
+
+/* ---------- C20.replyintact (seed C20j) ---------- */
+
+// replyIntactRule: in the methods of the two socket proxy clients, the reply variable filled by the RPC is returned as it
+// came: no store into it (or into a field of it) after it was handed to `call` — no truncation, defaulting or normalisation
+// of what the other side answered.
+func replyIntactRule(p *Prog, r *Report, rule string) {
+	r.Rule(rule, 4, "the socket proxy clients do not write into the reply of an RPC after the call")
+	n := 0
+	for _, fn := range p.Mod {
+		if fn.Synthetic != "" || fn.Parent() != nil {
+			continue
+		}
+		rn := recvNamedSig(fn)
+		if rn != "SocketAppProxyClient" && rn != "SocketBabbleProxyClient" {
+			continue
+		}
+		for _, c := range callsIn(fn, func(f *types.Func) bool { return f.Name() == "call" }) {
+			args := c.Common().Args
+			if len(args) == 0 {
+				continue
+			}
+			reply := unwrap(args[len(args)-1])
+			if mi, ok := reply.(*ssa.MakeInterface); ok {
+				reply = unwrap(mi.X)
+			}
+			al, ok := reply.(*ssa.Alloc)
+			if !ok {
+				continue
+			}
+			n++
+			bad := ""
+			for _, b := range fn.Blocks {
+				for _, in := range b.Instrs {
+					st, isSt := in.(*ssa.Store)
+					if !isSt || !canFollow(c, st) {
+						continue
+					}
+					base := st.Addr
+					for {
+						if fa, isFA := base.(*ssa.FieldAddr); isFA {
+							base = fa.X
+							continue
+						}
+						if ia, isIA := base.(*ssa.IndexAddr); isIA {
+							base = ia.X
+							continue
+						}
+						break
+					}
+					if base == ssa.Value(al) {
+						bad = p.ipos(st)
+					}
+				}
+			}
+			r.Check(bad == "", rule, fn.Name()+":reply-returned-as-received", p.ipos(c), fnName(fn), "the reply is not modified after the call", "the reply of the RPC is written into at "+bad+" after the call: what Babble receives is no longer what the application answered (receipts truncated, fields defaulted …)")
+		}
+	}
+	if n == 0 {
+		r.Fail(rule, "socket-clients:calls", "-", "", "no RPC call with a local reply variable found in the socket proxy clients")
 	}
 }
